@@ -623,6 +623,17 @@ EXTENDED = {
            'reported (bulk_ordered_stops_at_first_failure, bulk_unordered_applies_every_success).',
     'C09': 'Lifted to the extended step: stepX_expired_invisible (find_one with sort / projection, '
            'find_one_and_*, bulk_write, builders).',
+    'C10': 'Further entry points and counts: distinct returns exactly the (deduplicated, ==) items '
+           'of the selected documents (distinct_eq_find, distinct_exact); find_one and '
+           'find_one_and_* act on a member of the same selection, the first under the sort '
+           '(find_one_in_selection, fam_target_in_selection); the $match stage over the stored '
+           'documents equals find, expiry pass and empty collection included '
+           '(aggregate_match_eq_find); matched / modified counts of update_one, replace_one, '
+           'update_many (the natural reading of modified_count is refuted by the known finding '
+           'modified-order-only, the exact count is proved), deleted_count = size drop = selection '
+           'size, inserted ids = keys of the appended entries in order, bulk counters = sums of '
+           'the selection sizes on the one-at-a-time states; a successful update_one does not '
+           'imply a defined selection (refuted by the known finding lazy-raise, exact class proved).',
     'C13': 'Match after upsert: a document holding every pair of a plain-equality filter satisfies '
            'it (holds_all_matches); for such a filter and an operator update not addressing its '
            'keys the upserted document is matched by the filter and is the one document it selects '
